@@ -108,7 +108,7 @@ func within(t time.Time, lo, hi *time.Time) bool {
 
 // matchPredTerm matches predicate p (of a triple, or a predicate-valued object)
 // against a P-shaped term. ok=false means "does not match".
-func matchPredTerm(t Term, p *predicate.Predicate, a Assign) bool {
+func matchPredTerm(t Term, p *predicate.Predicate, a Assign, null func(string) bool) bool {
 	switch t.Kind {
 	case Const:
 		if model.PredKey(t.P) != model.PredKey(p) {
@@ -119,12 +119,18 @@ func matchPredTerm(t Term, p *predicate.Predicate, a Assign) bool {
 			return false
 		}
 	case AnchorBind:
-		if string(p.ID()) != t.ID || p.Type() != predicate.Temporal {
+		if string(p.ID()) != t.ID {
 			return false
 		}
-		ta, _ := p.TimeAnchor()
-		if !bind(a, t.Name, timeVal(*ta)) {
-			return false
+		if p.Type() != predicate.Temporal {
+			if !null(t.Name) {
+				return false
+			}
+		} else {
+			ta, _ := p.TimeAnchor()
+			if !bind(a, t.Name, timeVal(*ta)) {
+				return false
+			}
 		}
 	case Bound:
 		if string(p.ID()) != t.ID || p.Type() != predicate.Temporal {
@@ -143,11 +149,14 @@ func matchPredTerm(t Term, p *predicate.Predicate, a Assign) bool {
 	}
 	if t.AtAlias != "" {
 		if p.Type() != predicate.Temporal {
-			return false // the extraction cannot apply: the clause does not match
-		}
-		ta, _ := p.TimeAnchor()
-		if !bind(a, t.AtAlias, timeVal(*ta)) {
-			return false
+			if !null(t.AtAlias) {
+				return false // the extraction cannot apply: the clause does not match
+			}
+		} else {
+			ta, _ := p.TimeAnchor()
+			if !bind(a, t.AtAlias, timeVal(*ta)) {
+				return false
+			}
 		}
 	}
 	return true
@@ -156,6 +165,25 @@ func matchPredTerm(t Term, p *predicate.Predicate, a Assign) bool {
 // Match extends a with the bindings of clause c against triple tr, or reports
 // that tr does not match under a. glo/ghi are the global time bounds.
 func Match(c Clause, tr *triple.Triple, a Assign, glo, ghi *time.Time) (Assign, bool) {
+	return match(c, tr, a, glo, ghi, false)
+}
+
+// match with lenient=true reads an OPTIONAL clause the way docs/bql.md does: a
+// triple to which an extraction (TYPE, ID, AT, anchor binding) cannot apply
+// still matches, with that extraction NULL.
+func match(c Clause, tr *triple.Triple, a Assign, glo, ghi *time.Time, lenient bool) (Assign, bool) {
+	null := func(b string) bool {
+		if !lenient || !c.Optional {
+			return false
+		}
+		if b != "" {
+			if cur, ok := a[b]; ok {
+				return cur.Kind == 0 // NULL disagrees with a value the binding already has
+			}
+			a[b] = Val{}
+		}
+		return true
+	}
 	a = a.clone()
 	s, p, o := tr.Subject(), tr.Predicate(), tr.Object()
 	// global bounds: temporal triples must lie inside, immutable ones always pass
@@ -180,7 +208,7 @@ func Match(c Clause, tr *triple.Triple, a Assign, glo, ghi *time.Time) (Assign, 
 		return nil, false
 	}
 	// predicate
-	if !matchPredTerm(c.P, p, a) {
+	if !matchPredTerm(c.P, p, a, null) {
 		return nil, false
 	}
 	// object
@@ -205,12 +233,15 @@ func Match(c Clause, tr *triple.Triple, a Assign, glo, ghi *time.Time) (Assign, 
 	case AnchorBind, Bound:
 		op, err := o.Predicate()
 		if err != nil {
-			return nil, false
-		}
-		t := c.O
-		t.As, t.IDAlias, t.AtAlias, t.TypeAlias = "", "", "", ""
-		if !matchPredTerm(t, op, a) {
-			return nil, false
+			if c.O.Kind != AnchorBind || !null(c.O.Name) {
+				return nil, false
+			}
+		} else {
+			t := c.O
+			t.As, t.IDAlias, t.AtAlias, t.TypeAlias = "", "", "", ""
+			if !matchPredTerm(t, op, a, null) {
+				return nil, false
+			}
 		}
 	}
 	if !bind(a, c.O.As, objVal(o)) {
@@ -219,9 +250,10 @@ func Match(c Clause, tr *triple.Triple, a Assign, glo, ghi *time.Time) (Assign, 
 	if c.O.TypeAlias != "" {
 		n, err := o.Node()
 		if err != nil {
-			return nil, false
-		}
-		if !bind(a, c.O.TypeAlias, strVal(n.Type().String())) {
+			if !null(c.O.TypeAlias) {
+				return nil, false
+			}
+		} else if !bind(a, c.O.TypeAlias, strVal(n.Type().String())) {
 			return nil, false
 		}
 	}
@@ -234,18 +266,21 @@ func Match(c Clause, tr *triple.Triple, a Assign, glo, ghi *time.Time) (Assign, 
 			if !bind(a, c.O.IDAlias, strVal(string(op.ID()))) {
 				return nil, false
 			}
-		} else {
+		} else if !null(c.O.IDAlias) {
 			return nil, false
 		}
 	}
 	if c.O.AtAlias != "" {
 		op, err := o.Predicate()
 		if err != nil || op.Type() != predicate.Temporal {
-			return nil, false
-		}
-		ta, _ := op.TimeAnchor()
-		if !bind(a, c.O.AtAlias, timeVal(*ta)) {
-			return nil, false
+			if !null(c.O.AtAlias) {
+				return nil, false
+			}
+		} else {
+			ta, _ := op.TimeAnchor()
+			if !bind(a, c.O.AtAlias, timeVal(*ta)) {
+				return nil, false
+			}
 		}
 	}
 	return a, true
@@ -263,6 +298,12 @@ type Sol struct {
 // derivations. OPTIONAL clauses are left outer joins in textual order: bindings
 // new in an optional clause without a match are NULL.
 func Solve(cs []Clause, data []*triple.Triple, glo, ghi *time.Time) []Sol {
+	return SolveMode(cs, data, glo, ghi, false)
+}
+
+// SolveMode is Solve with the choice of reading for inapplicable extractions
+// inside OPTIONAL clauses (see match).
+func SolveMode(cs []Clause, data []*triple.Triple, glo, ghi *time.Time, lenient bool) []Sol {
 	all := AllBindings(cs)
 	sols := []Sol{{A: Assign{}, N: 1}}
 	for _, c := range cs {
@@ -270,7 +311,7 @@ func Solve(cs []Clause, data []*triple.Triple, glo, ghi *time.Time) []Sol {
 		for _, s := range sols {
 			matched := false
 			for _, tr := range data {
-				if na, ok := Match(c, tr, s.A, glo, ghi); ok {
+				if na, ok := match(c, tr, s.A.clone(), glo, ghi, lenient); ok {
 					next = append(next, Sol{na, s.N})
 					matched = true
 				}
